@@ -54,16 +54,38 @@ static cfg_t *mk_fake_section(void)
 
 /* type and count are CONSTANTS at every call site (the dispatchers below split the cases), so that symbolic
  * execution prunes the arms of the code under proof that belong to other option types (DESIGN 2.2) */
-static int k_reset = -1, k_listy = -1;   /* -1: symbolic; 0/1: forced by the dispatcher (constants) */
+static int k_leftover; /* count 0: values == NULL (0) or a left-over empty slot array (1, e.g. after removing the last section) */
+static int k_flags;   /* the option's flag word: a LITERAL chosen by FOR_EACH_FLAGS (a symbolic word keeps symbolic
+                       * execution from pruning the RESET / LIST arms of the code under proof: 5 s -> 100 s) */
+#define FL_DATA (CFGF_NOCASE | CFGF_NODEFAULT | CFGF_DEFINIT | CFGF_IGNORE_UNKNOWN | CFGF_DEPRECATED | CFGF_DROP | CFGF_COMMENTS | CFGF_MODIFIED | CFGF_KEYSTRVAL)
+/* the combinations of the control bits RESET / LIST / MULTI the store functions branch on, alternately with all
+ * other bits clear and all other bits set */
+#define FOR_EACH_FLAGS(stmt) do { unsigned g_ = nondet_uint(); \
+	if (g_ == 0) { k_flags = 0; stmt; } else if (g_ == 1) { k_flags = FL_DATA | CFGF_RESET; stmt; } \
+	else if (g_ == 2) { k_flags = FL_DATA | CFGF_LIST; stmt; } else if (g_ == 3) { k_flags = CFGF_LIST | CFGF_RESET; stmt; } \
+	else if (g_ == 4) { k_flags = CFGF_MULTI; stmt; } else { k_flags = FL_DATA | CFGF_MULTI | CFGF_LIST | CFGF_RESET; stmt; } } while (0)
+#define FOR_RESET_FLAGS(stmt) do { if (nondet_bool()) { k_flags = FL_DATA; stmt; } else { k_flags = CFGF_RESET | CFGF_LIST; stmt; } } while (0)
+
+/* type and count are CONSTANTS at every call site (the dispatchers below split the cases), so that symbolic
+ * execution prunes the arms of the code under proof that belong to other option types (DESIGN 2.2) */
+static int k_leftover; /* count 0: values == NULL (0) or a left-over empty slot array (1, e.g. after removing the last section) */
+static int k_flags;   /* the option's flag word: a LITERAL chosen by FOR_EACH_FLAGS (a symbolic word keeps symbolic
+                       * execution from pruning the RESET / LIST arms of the code under proof: 5 s -> 100 s) */
+#define FL_DATA (CFGF_NOCASE | CFGF_NODEFAULT | CFGF_DEFINIT | CFGF_IGNORE_UNKNOWN | CFGF_DEPRECATED | CFGF_DROP | CFGF_COMMENTS | CFGF_MODIFIED | CFGF_KEYSTRVAL)
+#define FL3(stmt, base) do { unsigned g_ = nondet_uint(); \
+	if (g_ == 0) { k_flags = (base); stmt; } else if (g_ == 1) { k_flags = (base) | CFGF_RESET; stmt; } \
+	else if (g_ == 2) { k_flags = (base) | CFGF_LIST; stmt; } else if (g_ == 3) { k_flags = (base) | CFGF_LIST | CFGF_RESET; stmt; } \
+	else if (g_ == 4) { k_flags = (base) | CFGF_MULTI; stmt; } else { k_flags = (base) | CFGF_MULTI | CFGF_LIST | CFGF_RESET; stmt; } } while (0)
+/* every combination of the control bits RESET / LIST / MULTI the store functions branch on (MULTI|RESET only together
+ * with LIST), each with all other bits clear and with all other bits set */
+#define FOR_EACH_FLAGS(stmt) do { if (nondet_bool()) FL3(stmt, 0); else FL3(stmt, FL_DATA); } while (0)
 static void mk_opt(cfg_opt_t *o, cfg_type_t type, unsigned n, _Bool allow_simple)
 {
 	memset(o, 0, sizeof *o);
 	o->name = "o";
 	o->type = type;
 	in_type = type;
-	in_flags = nondet_int();
-	if (k_reset == 0) in_flags &= ~CFGF_RESET; else if (k_reset == 1) in_flags |= CFGF_RESET;
-	if (k_listy == 0) in_flags &= ~(CFGF_LIST | CFGF_MULTI); else if (k_listy == 1) in_flags |= CFGF_LIST;
+	in_flags = k_flags;
 	o->flags = in_flags;
 	in_n = n;
 	in_simple = allow_simple;      /* constant at the call site: a "simple" option stores into the user's variable */
@@ -71,7 +93,8 @@ static void mk_opt(cfg_opt_t *o, cfg_type_t type, unsigned n, _Bool allow_simple
 		o->simple_value.number = &g_simple_store;
 	o->nvalues = in_n;
 	if (in_n == 0) {
-		o->values = nondet_bool() ? NULL : cfgv_alloc(sizeof(cfg_value_t *));
+		/* an emptied option keeps its (now unused) slot array: constant choice k_leftover */
+		o->values = k_leftover ? cfgv_alloc(sizeof(cfg_value_t *)) : NULL;
 	} else {
 		o->values = cfgv_alloc(in_n * sizeof(cfg_value_t *));
 		for (unsigned i = 0; i < in_n; i++) {
@@ -103,11 +126,13 @@ static void drop_opt(cfg_opt_t *o)
  * index), so the shape after the call is constant too and the clean-up at the end stays cheap */
 #define SPLIT_IDX(body, ...) do { unsigned q_ = nondet_uint(); if (q_ == 0) body(__VA_ARGS__, 0u); else if (q_ == 1) body(__VA_ARGS__, 1u); \
 	else if (q_ == 2) body(__VA_ARGS__, 2u); else if (q_ == 3) body(__VA_ARGS__, 3u); else body(__VA_ARGS__, 9u); } while (0)
-#define SPLIT_FLAGS(stmt) do { unsigned f_ = nondet_uint(); if (f_ == 0) { k_reset = 0; k_listy = 0; stmt; } else if (f_ == 1) { k_reset = 0; k_listy = 1; stmt; } \
-	else if (f_ == 2) { k_reset = 1; k_listy = 0; stmt; } else { k_reset = 1; k_listy = 1; stmt; } } while (0)
 /* case split over the number of values held (0..NV) */
+#ifdef SHAPE_N      /* one CBMC process per count */
+#define FOR_EACH_COUNT(call) do { if (SHAPE_N == 0 && nondet_bool()) { k_leftover = 1; call(0); } else { k_leftover = 0; call(SHAPE_N); } } while (0)
+#else
 #define FOR_EACH_COUNT(call) do { unsigned c_ = nondet_uint(); \
 	if (c_ == 0) { call(0); } else if (c_ == 1) { call(1); } else if (c_ == 2 && NV >= 2) { call(2); } else if (NV >= 3) { call(3); } } while (0)
+#endif
 
 /* ------------------------------------------------------------------------------------------------ cfg_opt_getval
  * contract::cfg_opt_getval(opt, index)
@@ -148,9 +173,8 @@ static void b_opt_getval(cfg_type_t t, unsigned n, _Bool simple, unsigned idx)
 void h_opt_getval(void)
 {
 #define CALL(n) do { if (nondet_bool()) b_opt_getval(CFGT_INT, n, 0, nondet_uint()); else b_opt_getval(CFGT_PTR, n, 0, nondet_uint()); } while (0)
-	k_reset = -1; k_listy = -1;
-	if (nondet_bool()) b_opt_getval(CFGT_INT, 0, 1, nondet_uint()); else
-	FOR_EACH_COUNT(CALL);
+	if (nondet_bool()) FOR_EACH_FLAGS(b_opt_getval(CFGT_INT, 0, 1, nondet_uint())); else
+	FOR_EACH_FLAGS(FOR_EACH_COUNT(CALL));
 #undef CALL
 	CANARY("opt_getval");
 }
@@ -193,14 +217,14 @@ void h_opt_setnint(void)
 {
 #define CALL(n) b_opt_setnint(CFGT_INT, n, 0, nondet_uint())
 	unsigned w_ = nondet_uint();
-	k_reset = -1; k_listy = -1;
-	if (w_ == 0) b_opt_setnint(CFGT_INT, 0, 1, nondet_uint());          /* simple option */
+	k_flags = CFGF_LIST;
+	if (w_ == 0) FOR_EACH_FLAGS(b_opt_setnint(CFGT_INT, 0, 1, nondet_uint()));          /* simple option */
 	else if (w_ == 1) b_opt_setnint(CFGT_FLOAT, 1, 0, 0);           /* wrong types: refused before anything else */
 	else if (w_ == 2) b_opt_setnint(CFGT_BOOL, 1, 0, 0);
 	else if (w_ == 3) b_opt_setnint(CFGT_PTR, 1, 0, 0);
 	else if (w_ == 4) b_opt_setnint(CFGT_FUNC, 0, 0, 0);
 	else if (w_ == 5) b_opt_setnint(CFGT_NONE, 0, 0, 0);
-	else FOR_EACH_COUNT(CALL);
+	else FOR_EACH_FLAGS(FOR_EACH_COUNT(CALL));
 #undef CALL
 	CANARY("opt_setnint");
 }
@@ -233,12 +257,12 @@ void h_opt_setnfloat_bool(void)
 {
 #define CALL(n) do { if (nondet_bool()) b_opt_setnfloat_bool(CFGT_FLOAT, n, 1, nondet_uint()); else b_opt_setnfloat_bool(CFGT_BOOL, n, 0, nondet_uint()); } while (0)
 	unsigned w_ = nondet_uint();
-	k_reset = -1; k_listy = -1;
+	k_flags = CFGF_LIST;
 	if (w_ == 0) b_opt_setnfloat_bool(CFGT_INT, 1, 1, 0);             /* wrong types */
 	else if (w_ == 1) b_opt_setnfloat_bool(CFGT_INT, 1, 0, 0);
 	else if (w_ == 2) b_opt_setnfloat_bool(CFGT_BOOL, 1, 1, 0);
 	else if (w_ == 3) b_opt_setnfloat_bool(CFGT_FLOAT, 1, 0, 0);
-	else FOR_EACH_COUNT(CALL);
+	else FOR_EACH_FLAGS(FOR_EACH_COUNT(CALL));
 #undef CALL
 	CANARY("opt_setnfloat_bool");
 }
@@ -283,9 +307,9 @@ static void b_opt_setnstr(cfg_type_t t, unsigned n, unsigned idx)
 void h_opt_setnstr(void)
 {
 #define CALL(n) b_opt_setnstr(CFGT_STR, n, nondet_uint())
-	k_reset = -1; k_listy = -1;
+	k_flags = CFGF_LIST;
 	if (nondet_bool()) b_opt_setnstr(CFGT_INT, 1, 0); else
-	FOR_EACH_COUNT(CALL);
+	FOR_EACH_FLAGS(FOR_EACH_COUNT(CALL));
 #undef CALL
 	CANARY("opt_setnstr");
 }
@@ -296,6 +320,7 @@ void h_opt_setcomment(void)
 {
 	cfg_opt_t o; snap_t s; int rc;
 	char *c = nondet_bool() ? cfgv_string(2) : NULL;
+	k_flags = nondet_bool() ? 0 : (FL_DATA | CFGF_RESET);
 	mk_opt(&o, CFGT_INT, 1, 0);
 	snap(&o, &s);
 
@@ -352,11 +377,10 @@ static void b_free_value(cfg_type_t t, unsigned n)
 }
 void h_free_value(void)
 {
-	k_reset = -1; k_listy = -1;
 #define CALL(n) do { unsigned k_ = nondet_uint(); if (k_ == 0) b_free_value(CFGT_INT, n); else if (k_ == 1) b_free_value(CFGT_STR, n); \
 	else if (k_ == 2) b_free_value(CFGT_SEC, n); else if (k_ == 3) b_free_value(CFGT_PTR, n); else if (k_ == 4) b_free_value(CFGT_FLOAT, n); \
 	else if (k_ == 5) b_free_value(CFGT_BOOL, n); else b_free_value(CFGT_FUNC, n); } while (0)
-	FOR_EACH_COUNT(CALL);
+	FOR_RESET_FLAGS(FOR_EACH_COUNT(CALL));
 #undef CALL
 	CANARY("free_value");
 }
